@@ -216,10 +216,10 @@ func ldbFiles(dir string) []string {
 // ---- F5 child: lookups on a prepared disk image while strace injects EIO into pread64
 
 type f5Cfg struct {
-	Dir     string
-	URL     string
-	Listed  []string
-	Unl     string
+	Dir    string
+	URL    string
+	Listed []string
+	Unl    string
 }
 
 func childF5(cfgPath string) {
@@ -593,4 +593,3 @@ func main() {
 	}
 	run.FinishShard()
 }
-
